@@ -44,6 +44,21 @@ CLAIMED["C03"] = dict(
     technique="interprocedural taint (rounded arithmetic -> decision) + decision table of the kernel + who-may-call",
 )
 
+CLAIMED["C02"] = dict(
+    category="other",
+    text=("Decided clauses: R2.1 Within is the blanket contains(b,a); R2.2 exhaustive tables of the IntersectionMatrix predicates against their "
+          "DE-9IM masks (all 4^k valuations of the cells read) and the LocationArray slot bijection; R2.3 every relate fall-back of Contains pairs "
+          "operand order and predicate; R2.4 all 12x12 Intersects instances (resolved by rustc, bodies summarised with the trait's own calls "
+          "uninterpreted) are flip / delegate(conversion) / Geometry match / any-fold / one of 11 enumerated kernels, no flip-flip cycle; R2.5 "
+          "fold soundness (Intersects: any-fold behind a bbox rejection; Contains: dimension table for all/any folds); R2.6 decision tables of "
+          "Rect / Triangle / Line intersects-contains-position, bbox helpers, Rect-Rect, the ring crossing step, the parity combination, "
+          "Polygon exterior/hole composition and the two-member composition of MultiPolygon / MultiLineString / GeometryCollection, each "
+          "against exact integer reference geometry on a witness catalogue. Not decided: loop-based kernels beyond fold class, relate itself."),
+    design_ref="DESIGN.md §4 C02, Appendix A",
+    note="Trusted: rustc trait resolution; symbolic models of core/alloc; reference geometry in analyses/rules/c02_kernels.py; relate (C01) for the fall-backs. One known finding (MultiLineString even end-point count) is listed in known_findings.txt.",
+    technique="dispatch classification over the resolved instance graph + decision tables by abstract MIR path enumeration",
+)
+
 NOT_YET = "rule set not implemented in this revision of /verif (see DESIGN.md §7 build order); nothing is claimed"
 NA = {}
 
